@@ -86,6 +86,9 @@ def c18():
     for n in range(7):
         j.append(K(M + "c18_ma_parse_len%d" % n, "every ASCII string of exactly %d bytes: \"<listed kind>-<digits>\" => Ok(kind(value)); no '-', unlisted (or upper-case) kind, or length not [+]digits => Err; Ok only with the right value" % n,
                    encodes=MA_TXT, cost=costs[n], timeout=900))
+    for n, c in ((3, 40), (4, 60)):
+        j.append(K(M + "c18_ma_parse_sma_tail%d" % n, "\"sma-\" + every %d symbolic ASCII bytes (7/8-byte texts): accepted iff the tail is [+]digits whose value fits PeriodType (values 256..9999 rejected with the default u8, never wrapped), accepted text gives exactly that length" % n,
+                   encodes=MA_TXT, cost=c, timeout=900))
     return j
 
 
